@@ -17,4 +17,5 @@ def run(ctx):
     obs += cp.calc_rule(ctx, 'C08')
     obs += cp.txn_rule(ctx, 'C08')
     obs += cp.sep_rule(ctx, 'C08')
+    obs += cp.capture_offsets_rule(ctx, 'C08')
     return obs
